@@ -1746,12 +1746,16 @@ class multislater(wave_function_auto):
         )
         green = self._calc_green_restricted(walker, wave_data)
         green = self._rows_by_orbital(green, ref_det[0], self.nelec[0])
+        # the beta string of the reference need not equal its alpha string
+        occ_b = jnp.nonzero(ref_det[1], size=self.nelec[1])[0]
+        walker_b = walker[:, : self.nelec[1]]
+        green_b = (walker_b.dot(jnp.linalg.inv(walker_b[occ_b, :]))).T
+        green_b = self._rows_by_orbital(green_b, ref_det[1], self.nelec[1])
 
         # overlap with the reference determinant
-        overlap_0 = (
-            jnp.linalg.det(walker[jnp.nonzero(ref_det[0], size=self.nelec[0])[0], :])
-            ** 2
-        )
+        overlap_0 = jnp.linalg.det(
+            walker[jnp.nonzero(ref_det[0], size=self.nelec[0])[0], :]
+        ) * jnp.linalg.det(walker_b[occ_b, :])
 
         # overlap / overlap_0
         overlap = coeff[(0, 0)] + 0.0j
@@ -1761,7 +1765,7 @@ class multislater(wave_function_auto):
                 green, Acre[(i, 0)], Ades[(i, 0)]
             ).dot(coeff[(i, 0)])
             overlap += vmap(self._det_overlap, in_axes=(None, 0, 0))(
-                green, Bcre[(0, i)], Bdes[(0, i)]
+                green_b, Bcre[(0, i)], Bdes[(0, i)]
             ).dot(coeff[(0, i)])
 
             for j in range(1, self.max_excitation - i + 1):
@@ -1769,7 +1773,7 @@ class multislater(wave_function_auto):
                     green, Acre[(i, j)], Ades[(i, j)]
                 )
                 overlap_b = vmap(self._det_overlap, in_axes=(None, 0, 0))(
-                    green, Bcre[(i, j)], Bdes[(i, j)]
+                    green_b, Bcre[(i, j)], Bdes[(i, j)]
                 )
                 overlap += (overlap_a * overlap_b) @ coeff[(i, j)]
 
